@@ -72,6 +72,9 @@ func (tr *Tr) afterCallHints(fr *Frame, key string, sig *types.Signature, res Va
 			f := tr.evalBool(env, ac.Clause.Expr)
 			tr.specMode--
 			tr.assume(st, f)
+			if ac.Env {
+				tr.assumptions["environment assumption "+ac.Clause.Label+" (in "+tr.key+"): the request handed to "+key+" is one it accepts ("+ac.Clause.Src+")"] = true
+			}
 			continue
 		}
 		goal := tr.evalBool(env, ac.Clause.Expr)
